@@ -404,7 +404,7 @@ class Client:
                 else:
                     break
 
-            if error is not None:
+            if sock is None and error is not None:
                 raise error
 
         try:
